@@ -79,6 +79,7 @@ def run_cube(pixels, nd, st, sp, api, dtype="int16", groups=None, dask=False, nd
             # how nodata reaches the accessor: attribute only / argument only / both and different (the argument wins)
             attrs = {"attr": {"nodata": nd}, "arg": {}, "both": {"nodata": (0 if nd != 0 else -1)}}[ndmode]
             da = xr.DataArray(arr, dims=("y", "x", "time"), coords={"time": time}, attrs=attrs)
+            da = da.transpose(*[("y", "x", "time"), ("time", "y", "x"), ("y", "time", "x")][(T + len(pixels)) % 3])
             if dask:
                 da = da.chunk({"x": 1})
             kw = {} if ndmode == "attr" else {"nodata": nd}
